@@ -146,7 +146,7 @@ func runC13(args []string) int {
 	rng := NewRNG(o.Seed)
 	rep := NewReport("C13")
 	rep.Rule = "range checks: circuits checking 1..4 variables with widths from {1..20, 31..33, 63..65, 127, 128, 200, 252..256, 300} (mixes change the chosen limb width) on R1CS and SCS with the commitment-based checker, on both with the commitment hidden (bit decomposition) and in the test engine; values 0, 1, 2^n-1, 2^n, 2^n+1, r-1, random inside / outside: solved iff every value is below 2^n; every DecomposeHint call and the table size of the argument are compared with the Gallina decomposition / width selection; adversary: forged limbs (digits of 2^n, borrowed limbs), forged multiplicities, with the commitment replaced by a hash of the committed values; lookups: tables of 1..33 witness entries, repeated / zero / split queries: results equal entries, an out-of-range index is rejected; multicommit: 1..4 custom gadgets + range check + lookup in one circuit: one commitment, over the concatenation of all registered variables (recomputed from the test engine's commitment function), callback i receives root^(i+1), any registered value changes the root; non-trivial = every (circuit, mode, assignment); distinct as counted"
-	var decCases, widthCases, accCases []string
+	var decCases, widthCases, accCases, qryCases []string
 	decompID := solver.GetHintID(rangecheck.DecomposeHint)
 	var countID solver.HintID
 	var countFn solver.Hint
@@ -294,6 +294,14 @@ func runC13(args []string) int {
 							}
 						}
 						if solver.HintID(hc.ID) == countID {
+							nbT := int(hc.In[0].Int64())
+							if len(qryCases) < 150 {
+								ws := make([]*big.Int, len(widths))
+								for i, w := range widths {
+									ws[i] = big.NewInt(int64(w))
+								}
+								qryCases = append(qryCases, fmt.Sprintf("(%d%%Z, %s, %s, %s)", base, zlist(ws), zlist(vals), zlist(hc.In[2+nbT:])))
+							}
 							if int(hc.In[0].Int64()) != 1<<uint(base) {
 								rep.Fail("c13:table-size", "the table of the range-check argument is not 0..2^b-1 for the limb width used by the decomposition", desc)
 							}
@@ -309,6 +317,55 @@ func runC13(args []string) int {
 							ws[i] = big.NewInt(int64(w))
 						}
 						widthCases = append(widthCases, fmt.Sprintf("(%d, %s, %d%%Z)", kind, zlist(ws), base))
+					}
+				}
+			}
+		}
+	}
+	// ---- widths narrower than the chosen limb width: many wide checks raise the limb width, one narrow check
+	for _, narrow := range []int{1, 2, 3, 5, 7} {
+		for _, nwide := range []int{40, 200} {
+			widths := make([]int, nwide+1)
+			for i := range widths {
+				widths[i] = 64
+			}
+			widths[nwide] = narrow
+			for _, mode := range []string{"r1cs", "scs", "engine"} {
+				tmpl := &rcCircuit{V: make([]frontend.Variable, len(widths)), widths: widths}
+				var ccs constraint.ConstraintSystem
+				if mode != "engine" {
+					var err error
+					if ccs, err = c13Compile(mode, tmpl); err != nil {
+						continue
+					}
+				}
+				for _, vk := range []int64{0, 1, int64(1)<<uint(narrow) - 1, int64(1) << uint(narrow), int64(1)<<uint(narrow) + 1, 255, 1023} {
+					asg := &rcCircuit{V: make([]frontend.Variable, len(widths)), widths: widths}
+					for i := 0; i < nwide; i++ {
+						asg.V[i] = rng.U64()
+					}
+					asg.V[nwide] = vk
+					want := vk < int64(1)<<uint(narrow)
+					var cls string
+					if mode == "engine" {
+						var err error
+						pm := catchPanic(func() { err = test.IsSolved(tmpl, asg, bnQ) })
+						cls = "ok"
+						if pm != "" || err != nil {
+							cls = "unsat"
+						}
+					} else {
+						w, _ := frontend.NewWitness(asg, bnQ)
+						cls = SolveCapture(ccs, w, 1).Class
+					}
+					rep.Eval(fmt.Sprint("rc-narrow|", mode, narrow, nwide, vk), true)
+					rep.Count("rc-narrow:" + cls)
+					desc := c13Desc{Kind: "rangecheck", Mode: mode, Detail: fmt.Sprintf("%d checks of 64 bits and one of %d bits; value %d", nwide, narrow, vk)}
+					if want && cls != "ok" {
+						rep.Fail("c13:rejects-in-range:"+mode, "a narrow range check inside a wide mix rejects an in-range value", desc)
+					}
+					if !want && cls == "ok" {
+						rep.Fail("c13:accepts-out-of-range:"+mode, "a range check narrower than the chosen limb width is satisfied by a value >= 2^n", desc)
 					}
 				}
 			}
@@ -493,6 +550,18 @@ func runC13(args []string) int {
 						}
 						obs := SolveCapture(ccs, w, 1)
 						cls, msg = obs.Class, obs.Msg
+						if cls == "ok" && nq > 0 {
+							// the argument must cover every looked-up (index, value) pair of every Lookup call
+							for _, hc := range obs.Hints {
+								if solver.HintID(hc.ID) == countID && hc.In[1].Int64() == 2 {
+									nbT := int(hc.In[0].Int64())
+									rows := (len(hc.In) - 2 - 2*nbT) / 2
+									if nbT != s || rows != nq {
+										rep.Fail("c13:lookup-argument-rows:"+mode, fmt.Sprintf("the log-derivative argument of a table with %d entries and %d lookups is built over %d entries and %d query rows", s, nq, nbT, rows), desc)
+									}
+								}
+							}
+						}
 					}
 					rep.Eval(fmt.Sprint("lk|", mode, s, nq, variant), true)
 					rep.Count("lookup:" + variant + ":" + cls)
@@ -505,6 +574,73 @@ func runC13(args []string) int {
 					} else if !want && cls == "ok" {
 						rep.Fail("c13:lookup-accepts:"+variant+":"+mode, "a lookup accepts "+variant, desc)
 					}
+				}
+			}
+		}
+	}
+	// ---- dishonest prover on lookups: the table blueprint is wrapped and returns a forged entry for the single-index
+	// Lookup call of a circuit with two Lookup calls on one table
+	for _, mode := range []string{"r1cs", "scs"} {
+		for _, firstForged := range []bool{true, false} {
+			s, nq := 4, 3
+			split := 1
+			if !firstForged {
+				split = 2 // the single-index call is the second one
+			}
+			tmpl := &lkCircuit{Entries: make([]frontend.Variable, s), Idx: make([]frontend.Variable, nq), Exp: make([]frontend.Variable, nq), split: split}
+			ccs, err := c13Compile(mode, tmpl)
+			if err != nil {
+				continue
+			}
+			sys := sysOf(ccs)
+			wrapped := 0
+			for i, bp := range sys.Blueprints {
+				if lb, ok := bp.(*constraint.BlueprintLookupHint[constraint.U64]); ok {
+					sys.Blueprints[i] = &forgedLookup{BlueprintLookupHint: lb}
+					wrapped++
+				}
+			}
+			if wrapped == 0 {
+				rep.Fail("harness:lookup-blueprint", "lookup blueprint not found", nil)
+				continue
+			}
+			entries := []*big.Int{big.NewInt(10), big.NewInt(20), big.NewInt(30), big.NewInt(40)}
+			idx := []int{1, 2, 3}
+			asg := &lkCircuit{Entries: make([]frontend.Variable, s), Idx: make([]frontend.Variable, nq), Exp: make([]frontend.Variable, nq)}
+			for i := range entries {
+				asg.Entries[i] = entries[i]
+			}
+			forgedPos := 0
+			if !firstForged {
+				forgedPos = 2
+			}
+			for i, j := range idx {
+				asg.Idx[i] = j
+				asg.Exp[i] = entries[j]
+				if i == forgedPos {
+					asg.Exp[i] = new(big.Int).Add(entries[j], big.NewInt(1)) // the forged value the blueprint returns
+				}
+			}
+			w, _ := frontend.NewWitness(asg, bnQ)
+			for _, cmode := range []string{"honest-counts", "lenient-counts"} {
+				forgedCount := func(q *big.Int, in, out []*big.Int) error {
+					if err := countFn(q, in, out); err == nil || cmode == "honest-counts" {
+						return err
+					}
+					for i := range out {
+						out[i].SetInt64(0)
+					}
+					return nil
+				}
+				obs := SolveCapture(ccs, w, 1, solver.OverrideHint(countID, forgedCount))
+				rep.Eval(fmt.Sprint("lk-forged|", mode, firstForged, cmode), true)
+				rep.Count("lookup-forged:" + obs.Class)
+				if obs.Class == "ok" {
+					which := "first"
+					if !firstForged {
+						which = "last"
+					}
+					rep.Fail("c13:forged-accepted:lookup:"+which+"-call:"+mode, "a lookup result forged by the prover (entry + 1) in the "+which+" of two Lookup calls is accepted", c13Desc{Kind: "lookup-forge", Mode: mode, Table: s, Idx: idx, Detail: which + " call forged, " + cmode})
 				}
 			}
 		}
@@ -646,8 +782,29 @@ func runC13(args []string) int {
 	writeFile(o.Out, "cases_C13.v", hdr+
 		fmt.Sprintf("Definition deccases : list (Z * Z * Z * list Z) := %s.\nDefinition mism_decompose := Eval vm_compute in dec_mismatches 0 deccases.\nPrint mism_decompose.\n", coqlistNL(decCases))+
 		fmt.Sprintf("Definition widthcases : list (nat * list Z * Z) := %s.\nDefinition mism_basewidth := Eval vm_compute in width_mismatches 0 widthcases.\nPrint mism_basewidth.\n", coqlistNL(widthCases))+
+		fmt.Sprintf("Definition qrycases : list (Z * list Z * list Z * list Z) := %s.\nDefinition mism_rangecheck_queries := Eval vm_compute in qry_mismatches 0 qrycases.\nPrint mism_rangecheck_queries.\n", coqlistNL(qryCases))+
 		fmt.Sprintf("Definition acccases : list (Z * Z * list Z * Z) := %s.\nDefinition mism_range_relations := Eval vm_compute in acc_mismatches %s 0 acccases.\nPrint mism_range_relations.\n", coqlistNL(accCases), zlit(bnQ)))
-	rep.CoqCases = len(decCases) + len(widthCases) + len(accCases)
+	rep.CoqCases = len(decCases) + len(widthCases) + len(accCases) + len(qryCases)
 	rep.Write(o.Out)
 	return 0
+}
+
+// a lookup blueprint whose single-index instructions return entry + 1
+type forgedLookup struct {
+	*constraint.BlueprintLookupHint[constraint.U64]
+}
+
+type forgeSolver struct {
+	constraint.Solver[constraint.U64]
+}
+
+func (f *forgeSolver) SetValue(v uint32, e constraint.U64) {
+	f.Solver.SetValue(v, f.Add(e, f.One()))
+}
+
+func (b *forgedLookup) Solve(s constraint.Solver[constraint.U64], inst constraint.Instruction) error {
+	if inst.Calldata[2] == 1 {
+		return b.BlueprintLookupHint.Solve(&forgeSolver{s}, inst)
+	}
+	return b.BlueprintLookupHint.Solve(s, inst)
 }
